@@ -87,16 +87,16 @@ def effect(h0, h1, self_, parent):
         'C16/list-objects-ids-roots-unchanged': And(h1.chl == h0.chl, h1.root == h0.root, h1.tid == h0.tid, h1.pre == h0.pre, h1.suc == h0.suc),
         'C16/children-lists-of-uninvolved-tasks-unchanged': ForAll([t_], Implies(And(t_ != null, t_ != h0.par[self_], t_ != newp), h1.ch(t_) == h0.ch(t_)), patterns=[h1.chl[t_]]),
         'C16/dependency-lists-unchanged': ForAll([t_], Implies(t_ != null, And(h1.P(t_) == h0.P(t_), h1.S(t_) == h0.S(t_))), patterns=[h1.pre[t_]]),
-        'C16/task-is-last-under-the-new-parent': Implies(newp != null, And(mem(h1.ch(newp), self_), idx(h1.ch(newp), self_) == ln(h1.ch(newp)) - 1)),
-        'C16/other-siblings-keep-their-relative-order': ForAll([t_, a_, b_], Implies(And(t_ != null, a_ != self_, b_ != self_, mem(h0.ch(t_), a_), mem(h0.ch(t_), b_)),
-                                                                                      And(mem(h1.ch(t_), a_), mem(h1.ch(t_), b_), (idx(h1.ch(t_), a_) < idx(h1.ch(t_), b_)) == (idx(h0.ch(t_), a_) < idx(h0.ch(t_), b_)))),
-                                                                patterns=[MultiPattern(mem(h0.ch(t_), a_), mem(h0.ch(t_), b_))]),
+        # exact list values (the relative order of the other siblings and "the task is last" are corollaries by the list axioms, see list_lemma_unit)
+        'C16/old-parent-loses-exactly-this-task': Implies(And(h0.par[self_] != null, h0.par[self_] != newp),
+                                                          h1.ch(h0.par[self_]) == If(mem(h0.ch(h0.par[self_]), self_), rem(h0.ch(h0.par[self_]), self_), h0.ch(h0.par[self_]))),
+        'C16/new-parent-gains-the-task-at-the-end': Implies(newp != null, h1.ch(newp) == app(If(mem(h0.ch(newp), self_), rem(h0.ch(newp), self_), h0.ch(newp)), self_)),
         'C11/subtree-takes-the-owner-of-the-new-parent': ForAll([x], h1.own[x] == If(And(parent != null, h0.own[parent] != W.null, insub(h0.par, self_, x)), h0.own[parent], h0.own[x]), patterns=[h1.own[x]]),
     }
 
 
 EFFECT_LABELS = ['C16/task-reports-the-new-parent', 'C16/parents-of-all-other-tasks-unchanged', 'C16/list-objects-ids-roots-unchanged', 'C16/children-lists-of-uninvolved-tasks-unchanged',
-                 'C16/dependency-lists-unchanged', 'C16/task-is-last-under-the-new-parent', 'C16/other-siblings-keep-their-relative-order', 'C11/subtree-takes-the-owner-of-the-new-parent']
+                 'C16/dependency-lists-unchanged', 'C16/old-parent-loses-exactly-this-task', 'C16/new-parent-gains-the-task-at-the-end', 'C11/subtree-takes-the-owner-of-the-new-parent']
 HEAP_KEYS = ['Task._Task__parent', 'Task._Task__wbs', 'PyList.elems']
 
 
@@ -302,7 +302,7 @@ def link_setter_unit(side):
             st.assume(ForAll([ii], Implies(And(0 <= ii, ii < ln(Lv)), at(Lv, ii) != null), patterns=[at(Lv, ii)]))
             st.assume(ForAll([x], Implies(mem(Lv, x), x != null), patterns=[mem(Lv, x)]))
             h = H(eng, st)
-            st.assume(ForAll([x, w_], Implies(And(mem(Lv, x), w_ != W.null), h.root[w_] != x), patterns=[MultiPattern(mem(Lv, x), h.root[w_])]))     # hidden roots are not public
+            st.assume(ForAll([x], Implies(mem(Lv, x), h.tid[x] != EMPTY), patterns=[mem(Lv, x)]))     # hidden roots (reserved id) are not public: domain restriction of DESIGN 8
             st.ghost['value0'] = Lv
             return [(st, V(Lv, LT))]
 
@@ -377,7 +377,7 @@ def link_setter_unit(side):
               'requires': [(l_, (lambda l_: lambda c: LInv(hc(c), Ec(c))[l_])(l_)) for l_ in LABS] +
                           [('self-non-null', lambda c: me(c) != null), ('C01/F4-no-task-is-its-own-ancestor', lambda c: And(Acyc(hc(c).par), hc(c).par[null] == null)),
                            ('hidden-root-has-reserved-id', lambda c: ForAll([w_], Implies(w_ != W.null, And(hc(c).root[w_] != null, hc(c).tid[hc(c).root[w_]] == EMPTY, hc(c).par[hc(c).root[w_]] == null)), patterns=[hc(c).root[w_]])),
-                           ('only-hidden-roots-have-the-reserved-id', lambda c: ForAll([t_], Implies(And(t_ != null, hc(c).tid[t_] == EMPTY), Exists([w_], And(w_ != W.null, hc(c).root[w_] == t_))), patterns=[hc(c).tid[t_]]))],
+                           ],
               'loops': {0: {'fingerprint': fps[0], 'invariant': [('checked-so-far', inv_L0)]},
                         1: {'fingerprint': fps[1], 'invariant': [('no-cycle-so-far', inv_L1)]},
                         2: {'fingerprint': fps[2], 'invariant': [('un-mirror/' + l_, (lambda l_: lambda c: inv_L2(c)[l_])(l_)) for l_ in L2P], 'havoc_heap': ['PyList.elems']},
@@ -396,3 +396,90 @@ def link_setter_unit(side):
 
 
 UNITS += [link_setter_unit('pre'), link_setter_unit('suc')]
+
+
+# ================================================================================================ ownership helpers, list-object setter
+kid = Function('kid', PAR, T.z, T.z, T.z)          # kid(par, t, x): the child of t on the way down to its descendant x (skolem of lemma D6; unique by D6u)
+height = Function('height', T.z, IntSort())       # decreases along child edges (exists in a finite forest: K1)
+KID_AX = [
+    ForAll([pm, a, x], Implies(Desc(pm, a, x), And(pm[kid(pm, a, x)] == a, kid(pm, a, x) != null, insub(pm, kid(pm, a, x), x))), patterns=[Desc(pm, a, x)]),                  # D6
+    ForAll([pm, c, x], Implies(And(Acyc(pm), c != null, pm[c] != null, Desc(pm, c, x)), And(Desc(pm, pm[c], x), kid(pm, pm[c], x) == c)), patterns=[Desc(pm, c, x)]),   # D6u
+    ForAll([pm, c], Implies(And(Acyc(pm), c != null, pm[c] != null), kid(pm, pm[c], c) == c), patterns=[pm[c]]),
+]
+
+
+def owner_walk_unit(attach):
+    name = '_attach' if attach else '_detach'
+
+    def build():
+        target = (lambda c: c['wbs']) if attach else (lambda c: W.null)
+        active = (lambda c: c['wbs'] != W.null) if attach else (lambda c: BoolVal(True))
+
+        def pre(c):
+            h = H(c.eng, c.st)
+            return And(c['self'] != null, Acyc(h.par), h.par[null] == null,
+                       Inv(h)['C01/F1-listed-child-reports-that-parent'], Inv(h)['C01/F2-parent-lists-its-child'], Inv(h)['C01/F3-no-child-listed-twice'],
+                       ForAll([t_], Implies(t_ != null, h.chl[t_] != LR.null), patterns=[h.chl[t_]]),
+                       ForAll([t_, c_], Implies(And(t_ != null, mem(h.ch(t_), c_)), height(c_) < height(t_)), patterns=[mem(h.ch(t_), c_)]), ForAll([t_], height(t_) >= 0))
+
+        def post(h0, h1, me, wv, act):
+            return {'C11/owner-of-the-whole-subtree-set': ForAll([x], h1.own[x] == If(And(act, insub(h0.par, me, x)), wv, h0.own[x]), patterns=[h1.own[x]]),
+                    'C16/nothing-else-changes': And(h1.par == h0.par, h1.chl == h0.chl, h1.elems == h0.elems, h1.pre == h0.pre, h1.suc == h0.suc)}
+
+        def c_rec(eng, st, recv, args, kws, node):
+            h0 = H(eng, st); me = st.env['self'].e
+            st.oblige('req@recursive-call/child-non-null', recv.e != null, f'@{node.lineno}')
+            st.oblige('dec/C14/height-decreases-at-the-recursive-call', And(height(recv.e) < height(me), height(recv.e) >= 0), f'@{node.lineno}')
+            wv = args[0].e if attach else W.null
+            act = (wv != W.null) if attach else BoolVal(True)
+            eng.havoc(st, 'Task._Task__wbs'); h1 = H(eng, st)
+            st.assume(post(h0, h1, recv.e, wv, act)['C11/owner-of-the-whole-subtree-set'])
+            return [(st, V(None, NONE))]
+
+        def inv(c):
+            h, h0 = H(c.eng, c.st), H(c.eng, c.pre); me = c['self']; C = h0.ch(me); i = c['_i0']
+            return And(i >= 0, i <= ln(C), h.par == h0.par, h.chl == h0.chl, h.elems == h0.elems, h.pre == h0.pre, h.suc == h0.suc, active(c),
+                       ForAll([x], h.own[x] == If(Or(x == me, And(Desc(h0.par, me, x), idx(C, kid(h0.par, me, x)) < i)), target(c), h0.own[x]), patterns=[h.own[x]]))
+        sig = {'self': T, 'wbs': W} if attach else {'self': T}
+        fp = 'for ch in self.children' if attach else 'for ch in self.__children'
+        contracts = {f'Task.{name}': c_rec, 'prop:Task.children': lambda eng, st, recv, a, k, n: [(st, V(H(eng, st).chl[recv.e], LR))]}
+        fc = {'sig': sig, 'requires': [('pre', pre)],
+              'loops': {0: {'fingerprint': fp, 'invariant': [('owners-set-for-the-children-visited-so-far', inv)], 'havoc_heap': ['Task._Task__wbs']}},
+              'ensures': [(l_, (lambda l_: lambda c: post(H(c.eng, c.pre), H(c.eng, c.st), c['self'], target(c), active(c))[l_])(l_)) for l_ in
+                          ['C11/owner-of-the-whole-subtree-set', 'C16/nothing-else-changes']]}
+        return Engine(F, f'Task.{name}', contracts, TASK_CLASSES, fc, plugins=[LinkPlugin('pre')]), LIST_AX + GRAPH_AX + KID_AX
+    return Unit(f'Task.{name}', F, build, ['C11', 'C16'], timeout_ms=15000)
+
+
+def set_children_unit():
+    def build():
+        fc = {'sig': {'self': T, 'lst': LR}, 'requires': [('nn', lambda c: c['self'] != null)],
+              'ensures': [('C01,C11,C16/the-list-object-handed-in-becomes-the-children-list (facades keep aliasing it)', lambda c: H(c.eng, c.st).chl[c['self']] == c['lst']),
+                          ('C16/nothing-else-changes', lambda c: And(H(c.eng, c.st).elems == H(c.eng, c.pre).elems, H(c.eng, c.st).par == H(c.eng, c.pre).par,
+                                                                     ForAll([t_], Implies(t_ != c['self'], H(c.eng, c.st).chl[t_] == H(c.eng, c.pre).chl[t_]))))]}
+        return Engine(F, 'Task.__set_children', {}, TASK_CLASSES, fc, plugins=[ListPlugin()]), LIST_AX
+    return Unit('Task.__set_children', F, build, ['C01', 'C11', 'C16'])
+
+
+UNITS += [owner_walk_unit(True), owner_walk_unit(False), set_children_unit()]
+
+
+def list_lemma_unit():
+    """pure list-theory corollaries used to read the exact-list effect clauses as the sentences of C16"""
+    class Lemmas:
+        src = Source.get(F)
+
+        def run(self):
+            st = St(); L = Const('L0', LT.z); xx, aa, bb = Consts('xx aa bb', T.z)
+            hyp = And(nodup(L), aa != xx, bb != xx, mem(L, aa), mem(L, bb))
+            R1 = If(mem(L, xx), rem(L, xx), L)
+            st.oblige('lemma/C16/removing-a-task-keeps-the-relative-order-of-the-other-siblings',
+                      Implies(hyp, And(mem(R1, aa), mem(R1, bb), (idx(R1, aa) < idx(R1, bb)) == (idx(L, aa) < idx(L, bb)))), 'list theory')
+            A1 = app(R1, xx)
+            st.oblige('lemma/C16/appending-puts-the-task-last-and-keeps-the-order-of-the-others',
+                      Implies(hyp, And(mem(A1, xx), idx(A1, xx) == ln(A1) - 1, mem(A1, aa), mem(A1, bb), (idx(A1, aa) < idx(A1, bb)) == (idx(L, aa) < idx(L, bb)), nodup(A1))), 'list theory')
+            return st.obs
+    return Unit('list-lemmas(remove/append)', F, lambda: (Lemmas(), LIST_AX), ['C16'])
+
+
+UNITS.append(list_lemma_unit())
